@@ -122,8 +122,35 @@ pub fn det_records(case: &Case, scratch: &Path, seeds: u64) -> Vec<Value> {
         ("summary", vec!["--summarize-before".into(), date_str(cut)], false),
         ("summary-annual", vec!["--summarize-before".into(), date_str(cut), "--summarize-annual-gains".into()], false),
     ];
+    // two more inputs derived from the case: repeated recognised columns, and securities whose
+    // names differ only in letter case
+    let mut dup = case.clone();
+    dup.hdr = case.files.iter().map(|_| 6).collect();
+    let dup_args = write_case_files(&dup, &base.join("in_dup"));
+    let mut cs = case.clone();
+    for f in cs.files.iter_mut() {
+        for r in f.iter_mut() {
+            r.sec = match r.sec.as_str() {
+                "FOO" => "Brk.b".to_string(),
+                "BAR" => "BRK.B".to_string(),
+                "AAA" => "Brk.b".to_string(),
+                "BBB" => "BRK.B".to_string(),
+                other => other.to_lowercase().replace("xyz.to", "brk.B"),
+            };
+        }
+    }
+    cs.opening = Default::default();
+    let cs_args = write_case_files(&cs, &base.join("in_case"));
+    let mut modes = modes;
+    modes.push(("repeated-columns", vec![], false));
+    modes.push(("case-variant-securities", vec!["--total-costs".into()], false));
     let mut out = Vec::new();
     for (mode, extra, csvdir) in modes {
+        let file_args = match mode {
+            "repeated-columns" => dup_args.clone(),
+            "case-variant-securities" => cs_args.clone(),
+            _ => file_args.clone(),
+        };
         let mut runs: Vec<ProcOut> = Vec::new();
         for s in 0..seeds {
             let od = base.join(format!("out_{}_{}", mode, s));
